@@ -154,6 +154,17 @@ def decl_pairs(tier):
                     [field("x", [(base - 3, top), (base - 3, base - 2)], T_uint(5))])
                 add("bounds: array of overlapping list entries overruns", base, [field("x", [(0, 3), (1, 1)], T_uint(5), array={"k": 2, "stride": base - 3})],
                     [field("x", [(0, 3), (1, 1)], T_uint(5), array={"k": 2, "stride": base - 4})])
+            # an invalid field declared after a valid one that names exactly the same bits (a second "view")
+            if base >= 8:
+                add("bounds: overrunning array after a scalar view of the same range", base,
+                    [field("st", [(0, 1)], T_uint(2), access="r"), field("x", [(0, 1)], T_uint(2), access="w", array={"k": base // 2 + 1, "stride": None})],
+                    [field("st", [(0, 1)], T_uint(2), access="r"), field("x", [(0, 1)], T_uint(2), access="w", array={"k": base // 2, "stride": None})])
+                add("bounds: overrunning strided bool array after a bool view of the same bit", base,
+                    [field("st", [(0, 0)], T_bool(), access="r"), field("x", [(0, 0)], T_bool(), access="w", array={"k": 3, "stride": base // 2})],
+                    [field("st", [(0, 0)], T_bool(), access="r"), field("x", [(0, 0)], T_bool(), access="w", array={"k": 2, "stride": base // 2})])
+                add("width: wrong type after a correct view of the same range", base,
+                    [field("st", [(2, 4)], T_uint(3), access="r"), field("x", [(2, 4)], T_uint(4), access="w")],
+                    [field("st", [(2, 4)], T_uint(3), access="r"), field("x", [(2, 4)], T_uint(3), access="w")])
             add("bounds: non-contiguous array overruns the base", base,
                 [field("x", [(0, 0), (base - 2, base - 2)], T_uint(2), array={"k": 3, "stride": 1})],
                 [field("x", [(0, 0), (base - 2, base - 2)], T_uint(2), array={"k": 2, "stride": 1})])
@@ -552,6 +563,17 @@ API_PRELUDE = """
         #[bits([0, 2], rw, stride = 2)]
         x: [u2; 2],
     }
+    /// a bitfield with pass-through derives (they belong to the bitfield, not to its builder type)
+    #[bitfield(u8)]
+    #[derive(Default, PartialEq, Eq, Debug)]
+    pub struct BDv {
+        /// a
+        #[bits(0..=3, rw)]
+        a: u4,
+        /// b
+        #[bits(4..=7, rw)]
+        b: u4,
+    }
     /// self-overlapping range list: no builder
     #[bitfield(u8, default = 0)]
     pub struct NoB4 {
@@ -613,6 +635,9 @@ def api_cases():
     c.append(("C14", "no builder for incomplete cover without default", "let _ = NoB2::builder();", "let _ = NoB2::ZERO;"))
     c.append(("C14", "no builder for overlapping array elements", "let _ = NoB3::builder();", "let _ = NoB3::DEFAULT;"))
     c.append(("C14", "no builder for a self-overlapping range list", "let _ = NoB4::builder();", "let _ = NoB4::DEFAULT;"))
+    fullbdv = "BDv::builder().with_a(arbitrary_int::u4::new(1)).with_b(arbitrary_int::u4::new(2)).build()"
+    c.append(("C14", "a complete builder state cannot be conjured through a derive passed on to the builder type", "let _: BDv = PartialBDv::default().build();", "let _: BDv = %s;" % fullbdv))
+    c.append(("C14", "an intermediate builder state cannot be conjured either", "let _ = PartialBDv::<15>::default();", "let _ = BDv::default();"))
     return c
 
 
@@ -678,6 +703,16 @@ def build_negative(tier, seed):
             twin.add(mk_enum(mod, "E", w_enum, [0, 1, (1 << w_enum) - 1], family="TWIN"))
         glo = 0
         twin.add(struct(mod, "W", 64, [field("x", [(glo, glo + w_enum - 1)], ty_good, access=acc or "w", array=({"k": 2, "stride": None} if arr else None))], family="TWIN"))
+    # hand-written custom types whose raw_value() is wider than what new_with_raw_value() takes (the getter only
+    # pins the latter): a readable+writable field of such a type must be rejected as well
+    for i, (tin, tout, wbits, base, lo) in enumerate((("u8", "u16", 8, 24, 16), ("arbitrary_int::u4", "arbitrary_int::u6", 4, 12, 8), ("arbitrary_int::u3", "u8", 3, 7, 4))):
+        mod = "h%d" % i
+        lines = ["/// hand-written custom field type with asymmetric conversions", "#[derive(Clone, Copy, Debug, PartialEq, Eq)]", "pub struct Odd(pub u32);", "impl Odd {",
+                 "    /// from raw", "    pub const fn new_with_raw_value(v: %s) -> Self {" % tin, "        Odd(%s as u32)" % ("v" if tin.startswith("u") and not tin.startswith("u3") and "::" not in tin else "v.value()"), "    }",
+                 "    /// to raw", "    pub const fn raw_value(self) -> %s {" % tout,
+                 "        %s" % (("self.0 as %s" % tout) if "::" not in tout else ("%s::new(self.0 as u8)" % tout)), "    }", "}",
+                 "/// witness", "#[bitfield(u%d)]" % base, "pub struct W {", "    /// x", "    #[bits(%d..=%d, rw)]" % (lo, lo + wbits - 1), "    x: Odd,", "    /// low", "    #[bit(0, rw)]", "    low: bool,", "}"]
+        negt.add(raw_item(mod, "W", lines, "C09", "width: hand-written type taking %s but returning %s on %d bits, access `rw`" % (tin, tout, wbits), extra={"imports": ["u%d" % base] if base not in (8, 16, 32, 64, 128) else []}))
     # `debug` needs a getter for every field: write-only / unspecified / array fields must not get one
     for i, (clause, prop, acc, arr) in enumerate([
             ("debug with a write-only field must not compile (w fields have no getter)", "C17", "w", None),
